@@ -835,7 +835,12 @@ class DATETIME(NUMERIC):
         return self.prepare_datetime(x)
 
     def from_column_value(self, x):
-        return long_to_datetime(x)
+        try:
+            return long_to_datetime(x)
+        except (OverflowError, ValueError):
+            # The column's default value (a document without a date) sorts
+            # after every date and is not a representable datetime
+            return None
 
     def to_bytes(self, x, shift=0):
         x = self.prepare_datetime(x)
